@@ -44,12 +44,12 @@ CHECKS = {
             {"pkg": "./server", "overlay": "server", "pkgname": "server",
              "harnesses": [
                  {"name": "VerifC02Pipeline", "replay": "interpreted", "max-paths": 3000000, "quick": {"steps": 5}, "thorough": {"steps": 7},
-                  "covers": ["done", "publish", "fetch-b", "fetch-c", "shrink", "expand-by-replicator", "small-batches"],
+                  "covers": ["done", "publish", "fetch-b", "fetch-c", "shrink", "expand-by-replicator", "small-batches", "stale-request"],
                   "targets": ["replicator).start", "replicator).replicate", "replicator).caughtUp", "replicator).maybeExpandISR", "protocolWriter).Flush",
                               "partition).sendReplicationRequest", "partition).handleReplicationRequest", "partition).handleReplicationResponse",
                               "partition).commitLoop", "partition).updateISRLatestOffset", "partition).messageProcessingLoop"]},
                  {"name": "VerifC02Reelected", "replay": "interpreted", "max-paths": 3000000, "quick": {"s1": 3, "s2": 1, "s3": 3}, "thorough": {"s1": 4, "s2": 2, "s3": 4},
-                  "covers": ["done", "publish", "fetch", "shrink", "second-term", "a-leads-again"],
+                  "covers": ["done", "publish", "fetch", "shrink", "second-term", "a-leads-again", "late-request"],
                   "targets": ["partition).becomeLeader", "partition).becomeFollower", "partition).stopLeading", "partition).truncateUncommitted",
                               "partition).handleLeaderOffsetRequest", "partition).commitLoop", "replicator).start", "partition).startReplicating"]},
                  {"name": "VerifC02Failovers", "replay": "interpreted", "max-paths": 3000000, "quick": {"m1": 2, "m2": 1, "m3": 1, "stalein": 5}, "thorough": {"m1": 2, "m2": 2, "m3": 2, "stalein": 0},
